@@ -44,6 +44,7 @@ type Config struct {
 	DisableLRU     bool
 	Engine         string
 	WCrash, WReload int // per mille of steps
+	Intx            bool // C09: half of the park faults land INSIDE the storage transactions (crash there / fault there)
 	WPark           int // per mille of steps: park the block write / tracker commit at a named site, then crash there or query meanwhile
 	SleepPct       int
 	QueriesPerStep int
@@ -114,6 +115,7 @@ func drawConfig(tp *kernel.Tape, prop, tier string) Config {
 	if (prop == "C09" || prop == "C08") && c.WPark == 0 {
 		c.WPark = 60
 	}
+	c.Intx = prop == "C09"
 	if f := cfgTweaks[prop]; f != nil {
 		f(&c, func(kind string, lo, hi int) int { return tp.Range(kind, lo, hi) })
 	}
@@ -521,7 +523,7 @@ func (s *Sim) run() {
 		var eff [6]int
 		eff[2], eff[4] = rSeed, rQ
 		// --- fault
-		parkSite, parkMode := "", 0
+		parkSite, parkMode, parkSkip := "", 0, 0
 		switch f := rFault % 1000; {
 		case f >= 1000-s.cfg.WCrash:
 			eff[0] = rFault
@@ -536,14 +538,27 @@ func (s *Sim) run() {
 			if parkSite == "bq.beforePut" || parkSite == "bq.afterPut" {
 				parkMode = 0
 			}
+			if s.cfg.Intx && (rFault/13)%2 == 0 {
+				// inside the transaction: crash there (mode 0) or fault there (mode 2), at the (skip+1)-th hit
+				parkSite = intxSites[(rFault/26)%2]
+				parkMode = []int{0, 2, 2}[(rFault/52)%3]
+				parkSkip = (rFault / 7) % 5
+				if parkSite == "bq.intx" {
+					parkSkip = 1 + (rFault/7)%2 // hit 0 is the first, single-block write
+				}
+			}
 		}
 		if s.viol != nil || s.harness != "" {
 			break
 		}
-		if parkSite != "" {
+		if parkSite == "bq.intx" {
+			// a write of several blocks in ONE transaction needs a backlog: hold the syncer before its next
+			// write, queue this step's block behind it, and arm the inner site only then (see below)
+			s.park.arm("bq.beforePut")
+		} else if parkSite != "" {
 			// a tracker commit only starts if a flush is due: make it due
 			time.Sleep(6 * time.Second)
-			s.park.arm(parkSite)
+			s.park.armAt(parkSite, parkSkip, parkMode == 2)
 		}
 		// --- fake clock: tracker flushes are time driven (balancesFlushInterval)
 		if rSleep%100 < s.cfg.SleepPct {
@@ -560,6 +575,54 @@ func (s *Sim) run() {
 		synctest.Wait()
 		if s.viol != nil || s.harness != "" {
 			break
+		}
+		if parkSite == "bq.intx" {
+			if s.park.isParked("bq.beforePut") {
+				for j := 1; j <= 2 && s.viol == nil && s.harness == ""; j++ {
+					s.addBlock(uint64(rSeed)+uint64(s.step)<<20+uint64(j)<<44, s.cfg.MaxGroups, via)
+					synctest.Wait()
+				}
+				s.park.armAt("bq.intx", parkSkip, parkMode == 2)
+				s.park.releaseAll()
+				synctest.Wait()
+				s.stat("bq_backlog_built", 1)
+			} else {
+				s.park.disarmAll()
+				s.stat("park_not_reached.bq.beforePut(for intx)", 1)
+			}
+			if s.viol != nil || s.harness != "" {
+				break
+			}
+		}
+		if parkSite != "" && parkMode == 2 {
+			s.park.disarmAll()
+			if s.park.didFault(parkSite) {
+				// The transaction was hit by a fault half-way. It must have been rolled back as a whole: whatever is
+				// confirmed durable from here on must really be durable, and a crash now must find a consistent image.
+				s.stat("intx_fault."+parkSite, 1)
+				s.log.Add("fault injected inside the transaction at %s (hit %d)", parkSite, parkSkip+1)
+				if rAck%2 == 0 {
+					s.led.WaitForCommit(s.latest)
+					synctest.Wait()
+					s.acked = s.latest
+					s.stat("acked", 1)
+				}
+				if (rAck/2)%3 != 0 {
+					s.crash("after-intx-fault")
+				} else {
+					s.afterBlock(uint64(rQ))
+				}
+				if s.viol != nil || s.harness != "" {
+					break
+				}
+			} else {
+				s.stat("park_not_reached."+parkSite, 1)
+			}
+			eff[5] = rAck
+			for j := 0; j < 6; j++ {
+				tp.Canon(base+j, eff[j])
+			}
+			continue
 		}
 		if parkSite != "" {
 			s.park.disarmAll()
